@@ -240,15 +240,24 @@ class World:
     def backup(self, block):
         self.bp.backup_block(self.odb(block))
 
-    def run(self, coro):
+    def run(self, coro, timeout=15):
+        '''Queries retry forever when they meet a tx number beyond the chain: a query that has not returned after 15 s
+        (normal: milliseconds) is reported as never returning.'''
         loop = asyncio.new_event_loop()
         try:
-            return loop.run_until_complete(coro)
+            return loop.run_until_complete(asyncio.wait_for(coro, timeout))
         finally:
             loop.close()
 
     def compare(self, blocks, what=''):
         '''All observables of the (fully flushed) index against the clean index of `blocks`.'''
+        try:
+            return self._compare(blocks, what)
+        except asyncio.TimeoutError:
+            return (f'{what}a history / UTXO query does not return (it retries forever: the index holds a tx number '
+                    f'beyond the chain it reports)')
+
+    def _compare(self, blocks, what=''):
         o = oracle(blocks)
         st = self.db.state
         for name, want in (('height', o['height']), ('tx_count', o['tx_count']), ('tip', o['tip']),
@@ -375,7 +384,24 @@ def scenario_reorg(seed):
 
 
 CRASH_POINTS = ['fs-write-0', 'fs-write-1', 'fs-write-2', 'fs-write-torn', 'before-history', 'after-history',
-                'after-utxo-batch', 'before-second-state']
+                'after-utxo-batch', 'before-second-state'] + [f'after-durable-event-{k}' for k in range(8)]
+# after-durable-event-k: die right after the k-th durable write of the flush, whatever it is - a meta file write, the commit
+# of a write batch of either database, or a direct put/delete on either database (so a new write that is not part of the
+# atomic batch becomes a crash point of its own)
+
+
+class BatchProxy:
+    def __init__(self, real, on_commit):
+        self.real, self.on_commit = real, on_commit
+
+    def __enter__(self):
+        return self.real.__enter__()
+
+    def __exit__(self, et, ev, tb):
+        r = self.real.__exit__(et, ev, tb)
+        if et is None:
+            self.on_commit()
+        return r
 
 
 def install_crash(w, point, rnd):
@@ -394,7 +420,31 @@ def install_crash(w, point, rnd):
             orig_write(self, start, b[:rnd.randrange(1, len(b))])
             raise Crash(point)
         return orig_write(self, start, b)
-    util.LogicalFile.write = lf_write
+    ev = {'n': 0}
+
+    def event():
+        k = ev['n']
+        ev['n'] += 1
+        if point == f'after-durable-event-{k}':
+            raise Crash(point)
+
+    if point.startswith('after-durable-event-'):
+        def lf_write_ev(self, start, b):
+            r = orig_write(self, start, b)
+            event()
+            return r
+        util.LogicalFile.write = lf_write_ev
+        for store in (db.utxo_db, db.history.db):
+            for meth in ('put', 'delete'):
+                if hasattr(store, meth):
+                    def direct(*a, _o=getattr(store, meth), **k):
+                        r = _o(*a, **k)
+                        event()
+                        return r
+                    setattr(store, meth, direct)
+            store.write_batch = (lambda _o=store.write_batch: (lambda *a, **k: BatchProxy(_o(*a, **k), event)))()
+    else:
+        util.LogicalFile.write = lf_write
     orig_hist = db.flush_history
     orig_utxo = db.flush_utxo_db
     orig_state = db.write_utxo_state
@@ -430,7 +480,7 @@ def scenario_crash_forward(seed):
     blocks = []
     for _ in range(rnd.randrange(4, 12)):
         blocks.append(g.make_block(blocks))
-    point = rnd.choice(CRASH_POINTS)
+    point = CRASH_POINTS[seed % len(CRASH_POINTS)]     # every crash point in any 16 consecutive seeds
     crash_at = rnd.randrange(1, len(blocks))
     full = rnd.random() < 0.6
     desc = {'seed': seed, 'blocks': len(blocks), 'crash_point': point, 'crash_in_flush_after_block': crash_at,
@@ -673,8 +723,62 @@ def scenario_compaction(seed):
         w.destroy()
 
 
+def scenario_compaction_twice(seed):
+    '''C14: compact, let the server index more blocks (several flushes), compact again - most script hashes are then
+    already in compacted form and untouched -, index again on top, compare.'''
+    rnd = random.Random(seed)
+    g = ChainGen(rnd)
+    blocks = []
+    for _ in range(rnd.randrange(9, 16)):
+        blocks.append(g.make_block(blocks))
+    rowlen = rnd.choice([1, 1, 2, 3])
+    a, b = len(blocks) - 5, len(blocks) - 3
+    desc = {'seed': seed, 'mode': 'compact-index-compact-index', 'row_entries': rowlen, 'blocks': len(blocks)}
+    w = World()
+
+    def compact(limit):
+        w.open(compacting=True)
+        hist = w.db.history
+        hist.max_hist_row_entries = rowlen
+        if hist.comp_cursor == -1:
+            hist.comp_cursor = 0
+            hist.comp_flush_count = max(hist.comp_flush_count, 1)
+        while hist.comp_cursor != -1:
+            hist._compact_history(limit)
+        w.db.set_flush_count(hist.flush_count)
+        w.close()
+
+    try:
+        w.open()
+        w.daemon.h = len(blocks) - 1
+        index_forward(w, blocks[:a], rnd, sched=[rnd.choice([0.3, 0.9]) for _ in blocks])
+        w.flush(True)
+        w.close()
+        compact(rnd.choice([8_000_000, 200]))
+        w.open()
+        w.db.history.max_hist_row_entries = rowlen
+        index_forward(w, blocks[:b], rnd, sched=[0.9 for _ in blocks])
+        w.flush(True)
+        w.close()
+        compact(rnd.choice([8_000_000, 30]))
+        w.open()
+        w.db.history.max_hist_row_entries = rowlen
+        bad = w.compare(blocks[:b], 'server started after the second compaction: ')
+        if bad:
+            return desc, bad
+        index_forward(w, blocks, rnd, sched=[0.9 for _ in blocks])
+        w.flush(True)
+        return desc, w.compare(blocks, 'after indexing on top of the twice-compacted history: ')
+    finally:
+        w.destroy()
+
+
+def scenario_c14(seed):
+    return scenario_compaction_twice(seed) if seed % 3 == 2 else scenario_compaction(seed)
+
+
 MODES = {'c01': scenario_forward, 'c02': scenario_forward, 'c03': scenario_reorg, 'c04': scenario_crash_forward,
-         'c05': scenario_crash_backup, 'c14': scenario_compaction, 'c15': scenario_undo_window,
+         'c05': scenario_crash_backup, 'c14': scenario_c14, 'c15': scenario_undo_window,
          'c15-falling': scenario_undo_window_falling}
 
 
